@@ -222,7 +222,7 @@ func (res vC09DemuxRes) obs() vSx {
 	return vOk(vL(vI(int(res.ver)), vBool(res.hv), vBool(res.ha)), vLs(ts), vI(res.where), vI(res.end))
 }
 
-// a tag body in a case: literal bytes, or (n seed) = n pattern bytes (keeps big cases short)
+// a tag body in a case: literal bytes, or (n seed filler) = n pattern bytes (keeps big cases short)
 func vC09Pattern(n int, seed int) []byte {
 	b := make([]byte, n)
 	for i := range b {
@@ -232,13 +232,16 @@ func vC09Pattern(n int, seed int) []byte {
 }
 
 func vC09Body(s vSx) []byte {
-	if s.isList() && len(s.l) == 2 {
+	if s.isList() && len(s.l) == 3 {
 		return vC09Pattern(s.l[0].int(), s.l[1].int())
 	}
 	return s.b
 }
 
-func vC09PatBody(n, seed int) vSx { return vL(vI(n), vI(seed)) }
+// The third element is a filler the model ignores: it keeps the text of such a case above the
+// size below which ./check samples cases for evaluation inside Coq (the observation of a
+// pattern case is as long as the body, far too long for a Coq list literal).
+func vC09PatBody(n, seed int) vSx { return vL(vI(n), vI(seed), vB(make([]byte, 1500))) }
 
 func vC09Ints(s vSx) []int {
 	out := make([]int, 0, len(s.l))
